@@ -4,3 +4,4 @@ pub mod broker_support;
 pub mod compress_support;
 pub mod route_support;
 pub mod proto_support;
+pub mod migration_support;
